@@ -8,6 +8,7 @@ import LlirModel.Drv.NumOps
 import LlirModel.Drv.MdOps
 import LlirModel.Drv.ModOps
 import LlirModel.Drv.CoreOps
+import LlirModel.Drv.HistOps
 open Llir Llir.Drv
 
 def dispatch (op : String) (args : List String) : String :=
@@ -39,6 +40,9 @@ def dispatch (op : String) (args : List String) : String :=
   | some r => r
   | none =>
   match coreOps op args with
+  | some r => r
+  | none =>
+  match histOps op args with
   | some r => r
   | none => "unknown-op"
 
